@@ -163,6 +163,16 @@ def fit_case(case):
         tol32 = 1e-5 * max(1.0, abs(exp)) if form == "float32" else 0.0
         if not abs(sc - exp) <= 1e-8 * max(1.0, abs(exp)) + slack + tol32 + (1e-7 if expect["dist"] == "mmd" else 0):
             v.append(violation("score_is_not_the_gemini_of_predict_proba", {"score": sc, "reference": exp, "dist": expect["dist"], "mode": expect["mode"]}, **where))
+    if y is None and form == "float64" and spec.get("random_state", 0) is not None and len(spec) <= 2:
+        # y is documented as unused unless an affinity is 'precomputed': a label-like vector in that slot changes nothing
+        m2, _, _ = C.build(name, spec, Xeff, seed)
+        try:
+            m2.fit(Xin, np.arange(n) % 2)
+            if not (np.array_equal(m2.labels_, labs) and np.array_equal(m2.predict_proba(Xin), P)):
+                v.append(violation("unused_y_changes_the_fitted_model", {"labels_without_y": labs, "labels_with_y": m2.labels_}, **where))
+        except Exception as e:  # noqa
+            v.append(violation("fit_raises_on_valid_configuration", {"spec": spec, "error": repr(e)[:300], "y": "label vector in the unused y slot"},
+                               exc=type(e).__name__, **where))
     if getattr(model, "n_iter_", None) != spec.get("max_iter", 3):
         v.append(violation("n_iter_does_not_reflect_max_iter", {"n_iter_": getattr(model, "n_iter_", None)}, **where))
     want = "SGDOptimizer" if spec.get("solver", "adam") == "sgd" else "AdamOptimizer"
